@@ -1,0 +1,43 @@
+//go:build verif
+
+package tglib
+
+import (
+	"encoding/json"
+	"os"
+	"strconv"
+
+	"github.com/ishidawataru/sctp"
+)
+
+// verifAdoptConn (verification hook H1): when VERIF_N2_FD names an inherited,
+// already connected socket, use it as the N2 association instead of dialling
+// SCTP, and record the arguments ConnectToAmf was called with.
+func verifAdoptConn(amfIP, stgIP string, amfPort, stgPort int) (*sctp.SCTPConn, bool) {
+	s := os.Getenv("VERIF_N2_FD")
+	if s == "" {
+		return nil, false
+	}
+	fd, err := strconv.Atoi(s)
+	if err != nil {
+		return nil, false
+	}
+	VerifEmit(map[string]interface{}{"ev": "ConnectToAmf", "amfIP": amfIP, "stgIP": stgIP,
+		"amfPort": amfPort, "stgPort": stgPort})
+	return sctp.NewSCTPConn(fd, nil), true
+}
+
+// VerifEmit appends one ndjson event to the file named by VERIF_TRACE.
+func VerifEmit(ev map[string]interface{}) {
+	p := os.Getenv("VERIF_TRACE")
+	if p == "" {
+		return
+	}
+	f, err := os.OpenFile(p, os.O_CREATE|os.O_APPEND|os.O_WRONLY, 0644)
+	if err != nil {
+		return
+	}
+	defer f.Close()
+	b, _ := json.Marshal(ev)
+	f.Write(append(b, '\n'))
+}
